@@ -300,6 +300,32 @@ def build_input(op, pool):
         d = MazeDataset(cfg=copy.deepcopy(src.cfg), mazes=mazes, generation_metadata_collected=None)
         d.update_self_config()
         return d
+    if op[0] == "narrow":
+        # the same mazes as they come back from an archive in a minimal format: solutions in a narrow integer type
+        src = pool[op[1] % len(pool)]
+        if len(src) == 0:
+            return None
+        import copy
+
+        return MazeDataset.load(copy.deepcopy(src)._serialize_minimal())
+    if op[0] == "line":
+        # hand-built mazes on a large grid (no generator, no solver): an L-shaped corridor from (r0, c0) right `a` cells and
+        # down `b` cells, which is its own shortest solution; start-end distances reach and exceed 127; solution arrays in
+        # int64 (as generated) or int8 (as loaded from a minimal archive)
+        import numpy as np
+        from maze_dataset import MazeDatasetConfig, SolvedMaze
+
+        g, segs, dt = op[1], op[2], op[3]
+        mazes = []
+        for r0, c0, a, b in segs:
+            r0, c0 = r0 % g, c0 % g
+            a, b = min(a, g - 1 - c0), min(b, g - 1 - r0)
+            conn = np.zeros((2, g, g), dtype=np.bool_)
+            conn[1, r0, c0 : c0 + a] = True
+            conn[0, r0 : r0 + b, c0 + a] = True
+            sol = [[r0, c] for c in range(c0, c0 + a + 1)] + [[r, c0 + a] for r in range(r0 + 1, r0 + b + 1)]
+            mazes.append(SolvedMaze(connection_list=conn, solution=np.array(sol, dtype=np.int8 if dt == "int8" else np.int64)))
+        return MazeDataset(cfg=MazeDatasetConfig(name="line", grid_n=g, n_mazes=len(mazes)), mazes=mazes)
     raise KeyError(op[0])
 
 
@@ -345,7 +371,7 @@ def st_history(spec, log, stats):
     name_seq = []
     for op in spec["ops"]:
         kind = op[0]
-        if kind in ("make", "dup", "chain"):
+        if kind in ("make", "dup", "chain", "narrow", "line"):
             try:
                 d = build_input(op, pool)
             except Exception as e:  # noqa: BLE001 - generation errors are not C08's business
@@ -457,6 +483,10 @@ def st_history(spec, log, stats):
             if res is not src:
                 pool.append(res)
             log.add("filter", name, _boundary_class(op[2]), len(src), len(res))
+            if src.mazes and src.mazes[0].solution.dtype != np.int64:
+                stats["probe_input_narrow_dtype"] = stats.get("probe_input_narrow_dtype", 0) + 1
+            if src.cfg.name == "line":
+                stats["probe_input_large_grid_handbuilt"] = stats.get("probe_input_large_grid_handbuilt", 0) + 1
             if len(src) >= 100:
                 stats["probe_input_at_least_100_mazes"] = stats.get("probe_input_at_least_100_mazes", 0) + 1
             if len(res) >= 100:
@@ -474,6 +504,8 @@ def st_history(spec, log, stats):
             m = model_of(src)
             if any(x["name"].startswith("__custom__:") or x["name"] in ("collect_generation_meta",) for x in m.filters) or not m.filters:
                 continue
+            if src.cfg.name == "line":
+                continue  # hand-built: there is no generator configuration to replay
             base = src.cfg
             cfgspec = {
                 "name": base.name,
@@ -592,6 +624,19 @@ def gen_specs(rng: random.Random, tier: str, n: int) -> list[dict]:
             ops.append(["chain", 0, rng.randrange(30), nv, step, rng.choice([[], list(range(nv))[::-1], rng.sample(range(nv), nv)]), [[rng.randrange(6), rng.randrange(30)] for _ in range(rng.choice([0, 0, 1, 2]))]])
             # aim the duplicate filter at the chain: connection threshold = step, solution criterion off or on
             ops.append(["filter", len([o for o in ops if o[0] in ("make", "dup", "chain")]) - 1, {"name": "remove_duplicates", "args": [step, rng.choice([None, 0, 1])], "kwargs": {}}])
+        if rng.random() < 0.15:
+            ops.append(["narrow", 0])
+        if rng.random() < 0.10:
+            g = rng.choice([65, 72, 100, 128, 128, 130])
+            dt = "int64" if g > 128 else rng.choice(["int8", "int8", "int64"])
+            segs = []
+            for _ in range(rng.randint(3, 9)):
+                if rng.random() < 0.6:  # far-apart endpoints: distances around the int8 boundary
+                    a, b = rng.randint(g // 2, g - 1), rng.randint(g // 2, g - 1)
+                    segs.append([rng.randrange(3), rng.randrange(3), a, b])
+                else:
+                    segs.append([rng.randrange(g), rng.randrange(g), rng.randint(0, g - 1), rng.randint(0, g - 1)])
+            ops.append(["line", g, segs, dt])
         for _ in range(rng.randint(3, 9)):
             r = rng.random()
             if r < 0.12 and ops[-1][0] == "filter" and ops[-1][2]["name"] != "collect_generation_meta":
